@@ -224,7 +224,10 @@ fn run_probe(case: &Case, p: &Prepared, probe: &Probe, ctx: &mut Ctx) -> Option<
     };
     match probe {
         Probe::AnnotatedReader => {
-            let (rs, _) = p.rs.as_ref()?;
+            let (rs, defs) = p.rs.as_ref()?;
+            if has_union(rs, defs, 0) {
+                return None; // (also for a replayed case: see `plan`)
+            }
             let writer_rs = strip_fixed_annotations(rs);
             let json = serde_json::to_string(&to_json(&writer_rs)).unwrap();
             let meta = vec![("avro.schema".to_string(), json.into_bytes())];
@@ -576,8 +579,11 @@ fn probes(case: &Case, p: &Prepared) -> Vec<Probe> {
         let len = r.usize_below(12);
         out.push(Probe::Bytes { bytes: r.bytes(len) });
     }
-    if let Some((rs, _)) = &p.rs {
-        if strip_fixed_annotations(rs) != *rs {
+    if let Some((rs, defs)) = &p.rs {
+        // (not for schemas with unions: which branch of the reader union a value is resolved into -
+        // the library takes the first one that accepts it, even an empty record for a map - is
+        // schema resolution, not this property)
+        if strip_fixed_annotations(rs) != *rs && !has_union(rs, defs, 0) {
             out.push(Probe::AnnotatedReader);
         }
     }
@@ -591,6 +597,19 @@ fn probes(case: &Case, p: &Prepared) -> Vec<Probe> {
         }
     }
     out
+}
+
+fn has_union(s: &RS, defs: &crate::gen::Defs, depth: u32) -> bool {
+    if depth > 8 {
+        return false;
+    }
+    match s {
+        RS::Union(_) => true,
+        RS::Record { fields, .. } => fields.iter().any(|(_, t)| has_union(t, defs, depth + 1)),
+        RS::Array(t) | RS::Map(t) => has_union(t, defs, depth + 1),
+        RS::Ref { full, .. } => defs.get(full.trim_start_matches('.')).map(|t| has_union(t, defs, depth + 1)).unwrap_or(false),
+        _ => false,
+    }
 }
 
 /// The schema with uuid / duration annotations on fixeds removed (same bytes on the wire).
